@@ -1,5 +1,6 @@
 """C06 — block annotations agree with instruction-by-instruction execution."""
 import re
+import zlib
 import common as C
 import evmspec as S
 import evmref as R
@@ -109,7 +110,7 @@ def oracle_as(case, reply):
         return f"inputs are not var1..var{n_in}: {ins}"
     outs = outs.split("|") if outs else []
     import random as _r
-    rr = _r.Random(hash(case["line"]) & 0xffffffff)
+    rr = _r.Random(zlib.crc32(case["line"].encode()))
     for trial in range(3):
         extra = rr.randrange(0, 3)
         entry = [rr.choice([0, 1, 2, 31, 32, 255, 256, (1 << 255) - 1, 1 << 255, R.M - 1, R.M - 2, rr.getrandbits(256), rr.getrandbits(8)])
